@@ -211,6 +211,11 @@ def library(ctx):
                     corners.append((ckind, cpow, cen, camp))
     for ckind, cpow in (("fbank", True), ("tri", False), ("gabor", True)):
         corners.append((ckind, cpow, True, "dyn"))
+    # finite signals of huge / tiny magnitude, magnitude spectrum, double precision: the modulus of a complex bin must not go
+    # through re**2 + im**2 (5th entry: use_log)
+    for ckind in ("fbank", "gabor"):
+        corners.append((ckind, False, False, 1e157, True))
+        corners.append((ckind, False, False, 1e-200, False))
     for it in range(len(corners) + n):
         if ctx.out_of_time():
             break
@@ -222,7 +227,7 @@ def library(ctx):
         flags = dict(use_log=r.random() < 0.5, use_power=r.random() < 0.5, include_energy=r.random() < 0.5,
                      pad_to_nearest_power_of_two=r.random() < 0.5)
         if corner:
-            flags.update(use_log=True, use_power=corner[1], include_energy=corner[2])
+            flags.update(use_log=corner[4] if len(corner) > 4 else True, use_power=corner[1], include_energy=corner[2])
         style = r.choice(["causal", "centered"])
         kaldi = r.random() < 0.3
         flen, fshift = r.choice([None, 10.0, 25.0, 12.3]), r.choice([2.0, 5.0, 10.0])
@@ -256,10 +261,15 @@ def library(ctx):
         except Exception as e:
             ctx.violation(case, list(want.shape), "%s: %s" % (type(e).__name__, e), "torch module raises in scope", tags=dict(clause="raises"))
             continue
-        if got.shape != want.shape or not np.allclose(got, want, rtol=1e-7, atol=1e-9):
+        # absolute slack 1e-9 for ordinary signals, scaled down with the features for tiny ones (a result of 0 is not "close")
+        atol = 1e-9 * min(1.0, float(np.max(np.abs(want)))) if want.size and np.all(np.isfinite(want)) else 1e-9
+        if got.shape != want.shape or not np.allclose(got, want, rtol=1e-7, atol=atol):
             ctx.violation(case, list(want.shape), dict(shape=list(got.shape), maxdiff=float(np.abs(got - want).max()) if got.shape == want.shape and got.size else None),
                           "from_stft_frame_computer(c)(x) == c.compute_full(x) (double precision parameters)",
                           tags=dict(clause="library_value", bank=kind))
+        if isinstance(amp, float) and amp not in (0.0,) and not 1e-30 < abs(amp) < 1e30:
+            ctx.count("float32_not_applicable")   # the signal itself is not representable in single precision
+            continue
         # default (single precision) parameters: working precision
         mod32 = pt.PyTorchSTFTFrameComputer.from_stft_frame_computer(comp)
         with torch.no_grad():
@@ -341,6 +351,24 @@ def library(ctx):
         m, s = float(a.mean()), float(a.std())
         if abs(m) > 6 * max(coeff, 1e-12) / np.sqrt(200000) + 1e-12 or abs(s - coeff) > 0.02 * coeff + 1e-12:
             ctx.violation(dict(kind="dither", coeff=coeff), [0.0, coeff], [m, s], "PyTorchDither noise has zero mean and std coeff", tags=dict(clause="dither_stats"))
+        # the module in every state a user puts it in: after .eval() (inference is where features are extracted), back in
+        # .train(), scripted - the NumPy Dither it ports knows no such modes and always dithers
+        for state, mod in (("eval", pt.PyTorchDither(coeff).eval()), ("eval-then-train", pt.PyTorchDither(coeff).eval().train()),
+                           ("scripted eval", None)):
+            scase = dict(kind="dither", coeff=coeff, module_state=state)
+            ctx.case(scase, kind="wrapper:dither_state")
+            try:
+                if mod is None:
+                    mod = torch.jit.script(pt.PyTorchDither(coeff).eval())
+                torch.manual_seed(1234)
+                c = mod(x)
+            except Exception as e:
+                ctx.violation(scase, "noise", "%s: %s" % (type(e).__name__, str(e)[:150]), "PyTorchDither runs in this module state", tags=dict(clause="dither_state"))
+                continue
+            if not torch.equal(a, c):
+                ctx.violation(scase, [0.0, coeff], [float(c.mean()), float(c.std())],
+                              "PyTorchDither adds the same noise (zero mean, std coeff, same seed) whatever the module's training flag",
+                              tags=dict(clause="dither_state"))
 
 
 def replay(rp):
